@@ -37,6 +37,9 @@ def make_estimator(spec):
     if kind == "vector":
         return vd.Vector([make_estimator(s) for s in spec["components"]])
     if kind == "chain":
+        if spec.get("labels") == "kind":
+            # labels carry no meaning for fitting: two steps of the same kind share a label
+            return vd.Chain([(s["kind"], make_estimator(s)) for s in spec["steps"]])
         return vd.Chain([("step%d" % i, make_estimator(s)) for i, s in enumerate(spec["steps"])])
     if kind == "blockreduce":
         kw = dict(center_coordinates=spec.get("center", False))
